@@ -1,5 +1,243 @@
-import Spec.Rev
-import Model.Rev.Heads
-/-! # C05 (theorems: work in progress) -/
+import Lemmas.Rev.HeadsFacts
+import Props.C02
+/-!
+# C05 — stamp moves only the branches that share lineage with the target
+
+About `Model.Rev.stampDest` (the body of the `for dest in dests` loop of
+`ScriptDirectory._stamp_revs`: classification delete / no-op / downgrade / upgrade / new
+branch) followed by `updateToStep` for the resulting `StampStep`
+(`StampStep.should_*`, `merge_branch_idents`, `unmerge_branch_idents`).
+-/
 namespace C05
+open Model.Rev Spec.Rev Lemmas.Rev C01 C02
+
+/-- `x` shares lineage with `d`: ancestor or descendant through down-revisions and dependencies -/
+def Lineage (m : LMap) (d x : Id) : Prop := Reach m.allDownOf d x ∨ Reach m.allDownOf x d
+
+/-- no row is implied by another row -/
+def Antichain (m : LMap) (R : List Id) : Prop :=
+  R.Nodup ∧ ∀ x ∈ R, ∀ y ∈ R, x ≠ y → ¬ Reach m.allDownOf x y
+
+theorem mem_desc_single {m : LMap} (L : Loaded m) (d x : Id) : x ∈ m.descendants [d] ↔ Reach m.allDownOf x d := by
+  rw [mem_descendants_iff L]; simp [BuildsOn]
+
+theorem mem_anc_single {m : LMap} (L : Loaded m) (d x : Id) : x ∈ m.ancestors [d] ↔ Reach m.allDownOf d x := by
+  rw [mem_ancestors_iff]; simp [reach_norm_iff_all L]
+
+/-- `filter_for_lineage(heads, dest, include_dependencies=True)` selects the rows in `dest`'s lineage -/
+theorem sharesLineage_iff {m : LMap} (L : Loaded m) (d x : Id) :
+    sharesLineage m x [d] true = true ↔ Lineage m d x := by
+  unfold sharesLineage Lineage
+  simp only [List.isEmpty_cons, Bool.false_eq_true, if_false, if_true, List.any_cons, List.any_nil, Bool.or_false,
+    Bool.or_eq_true, decide_eq_true_eq]
+  rw [mem_desc_single L, mem_anc_single L]
+
+theorem runSteps_single (m : LMap) (R R' : List Id) (s : Step) (st : List Stmt)
+    (h : updateToStep m R s = .ok (R', st)) : runSteps m R [s] = .ok [R'] := by
+  simp [runSteps, h]
+
+/-- rows after replacing the rows `fs` (all present) by `d` (absent), through a `StampStep` -/
+theorem stamp_fold {m : LMap} (R : List Id) (hn : R.Nodup) (fs : List Id) (hf : fs.Nodup) (hne : fs ≠ [])
+    (hs : ∀ f ∈ fs, f ∈ R) (d : Id) (hd : d ∉ R) (up : Bool) :
+    ∃ R' st, updateToStep m R (.stamp fs [d] up false) = .ok (R', st) ∧
+      RowSet R' (fun x => (x ∈ R ∧ x ∉ fs) ∨ x = d) := by
+  have hrun : ∀ st R', stepStmts m R (.stamp fs [d] up false) = .ok st → applyStmts R st = .ok R' →
+      updateToStep m R (.stamp fs [d] up false) = .ok (R', st) := by
+    intro st R' h1 h2; unfold updateToStep; rw [h1]; simp only; rw [h2]
+  have hany : fs.any (· ∉ R) = false := by
+    simp only [List.any_eq_false, decide_eq_true_eq, Classical.not_not]; exact hs
+  by_cases hlen : fs.length > 1
+  · obtain ⟨R', hok, hsr⟩ := fold_ok R hn fs hf hne hs d hd
+    have hst : stepStmts m R (.stamp fs [d] up false) =
+        .ok (fs.dropLast.map .del ++ [.upd (fs.getLast hne) d]) := by
+      unfold stepStmts
+      simp only [Bool.and_false, Bool.false_eq_true, if_false, Bool.false_or, hany, Bool.and_false, Bool.false_and, hlen,
+        decide_true, if_true]
+      cases hrev : fs.reverse with
+      | nil => simp at hrev; exact absurd hrev hne
+      | cons last initRev =>
+        obtain ⟨_, h1, h2⟩ := reverse_cons_split hrev
+        simp only [h1, h2]
+    exact ⟨R', _, hrun _ _ hst hok, hsr⟩
+  · match fs, hne, hlen with
+    | [f], _, _ =>
+      have hfR : f ∈ R := hs f List.mem_cons_self
+      obtain ⟨R', hok, hsr⟩ := upd_ok hn hfR hd
+      have hst : stepStmts m R (.stamp [f] [d] up false) = .ok [.upd f d] := by
+        unfold stepStmts
+        simp only [Bool.and_false, Bool.false_eq_true, if_false, Bool.false_or, hany, Bool.false_and]
+        simp
+      refine ⟨R', _, hrun _ _ hst hok, hsr.nodup, ?_⟩
+      intro x; rw [hsr.iff x]; simp
+    | _ :: _ :: _, _, hl => simp at hl
+
+/-- **C05, one destination.** From rows that form an antichain, stamping a revision `d` of the
+history replaces every row in `d`'s lineage by `d` and leaves every other row untouched; every
+statement hits exactly one row; the result is an antichain again. -/
+theorem single {m : LMap} (L : Loaded m) (R : List Id) (hR : Antichain m R) (d : Id) :
+    ∃ steps tr, stampDest m (R.filter (fun x => sharesLineage m x [d] true)) (some d) = .ok steps ∧
+      runSteps m R steps = .ok tr ∧
+      RowSet (tr.getLastD R) (fun x => (x ∈ R ∧ ¬ Lineage m d x) ∨ x = d) ∧
+      Antichain m (tr.getLastD R) := by
+  obtain ⟨rank, hrank⟩ := L.ranked
+  have hanti : ∀ x y, x ∈ R → y ∈ R → Reach m.allDownOf x y → x = y := by
+    intro x y hx hy hr
+    apply Classical.byContradiction
+    intro hne; exact hR.2 x hx y hy hne hr
+  have hfmem : ∀ x, x ∈ R.filter (fun x => sharesLineage m x [d] true) ↔ x ∈ R ∧ Lineage m d x := by
+    intro x; rw [List.mem_filter, sharesLineage_iff L]
+  -- it is enough to produce the right row set; the antichain property follows
+  suffices h : ∃ steps tr, stampDest m (R.filter (fun x => sharesLineage m x [d] true)) (some d) = .ok steps ∧
+      runSteps m R steps = .ok tr ∧ RowSet (tr.getLastD R) (fun x => (x ∈ R ∧ ¬ Lineage m d x) ∨ x = d) by
+    obtain ⟨steps, tr, h1, h2, hs⟩ := h
+    refine ⟨steps, tr, h1, h2, hs, hs.nodup, ?_⟩
+    intro x hx y hy hne hreach
+    rcases (hs.iff x).mp hx with ⟨hxR, hxl⟩ | hxd <;> rcases (hs.iff y).mp hy with ⟨hyR, hyl⟩ | hyd
+    · exact hR.2 x hxR y hyR hne hreach
+    · subst hyd; exact hxl (Or.inr hreach)
+    · subst hxd; exact hyl (Or.inl hreach)
+    · exact hne (hxd.trans hyd.symm)
+  by_cases hdf : d ∈ R.filter (fun x => sharesLineage m x [d] true)
+  · -- already there: nothing to do
+    have hdR : d ∈ R := ((hfmem d).mp hdf).1
+    refine ⟨[], [], by simp [stampDest, hdf, pure, Except.pure], by simp [runSteps], hR.1, ?_⟩
+    intro x
+    simp only [List.getLastD_nil]
+    constructor
+    · intro hx
+      by_cases e : x = d
+      · exact Or.inr e
+      · left; refine ⟨hx, ?_⟩
+        rintro (h | h)
+        · exact e (hanti d x hdR hx h).symm
+        · exact e (hanti x d hx hdR h)
+    · rintro (⟨hx, _⟩ | e)
+      · exact hx
+      · rw [e]; exact hdR
+  · have hdR : d ∉ R := fun h => hdf ((hfmem d).mpr ⟨h, Or.inl (Reach.refl _)⟩)
+    have hfn : (R.filter (fun x => sharesLineage m x [d] true)).Nodup := List.Pairwise.filter _ hR.1
+    have hfsub : ∀ f ∈ R.filter (fun x => sharesLineage m x [d] true), f ∈ R := fun f hf => ((hfmem f).mp hf).1
+    have hrows : ∀ R', RowSet R' (fun x => (x ∈ R ∧ x ∉ R.filter (fun x => sharesLineage m x [d] true)) ∨ x = d) →
+        RowSet R' (fun x => (x ∈ R ∧ ¬ Lineage m d x) ∨ x = d) := by
+      intro R' hs
+      refine ⟨hs.nodup, ?_⟩
+      intro x; rw [hs.iff x]
+      constructor
+      · rintro (⟨h1, h2⟩ | h)
+        · exact Or.inl ⟨h1, fun hl => h2 ((hfmem x).mpr ⟨h1, hl⟩)⟩
+        · exact Or.inr h
+      · rintro (⟨h1, h2⟩ | h)
+        · exact Or.inl ⟨h1, fun hf => h2 ((hfmem x).mp hf).2⟩
+        · exact Or.inr h
+    by_cases hdesc : (R.filter (fun x => sharesLineage m x [d] true)).any (· ∈ m.descendants [d]) = true
+    · -- heads above the destination: a single downgrade-like step
+      have hnoanc : (R.filter (fun x => sharesLineage m x [d] true)).any (· ∈ m.ancestors [d]) = false := by
+        simp only [List.any_eq_false, decide_eq_true_eq]
+        intro f' hf' hanc
+        simp only [List.any_eq_true, decide_eq_true_eq] at hdesc
+        obtain ⟨f, hf, hfd⟩ := hdesc
+        have h1 : Reach m.allDownOf f d := (mem_desc_single L d f).mp hfd
+        have h2 : Reach m.allDownOf d f' := (mem_anc_single L d f').mp hanc
+        have := hanti f f' (hfsub f hf) (hfsub f' hf') (Reach.trans _ h1 h2)
+        subst this
+        -- f both above and below d: f = d, but d is not a row
+        have hle1 := reach_rank_le' hrank h1
+        have hle2 := reach_rank_le' hrank h2
+        have : f = d := by
+          apply Classical.byContradiction
+          intro hne
+          have := reach_rank_lt' hrank h1 hne
+          omega
+        exact hdR (this ▸ hfsub f hf)
+      have hne : R.filter (fun x => sharesLineage m x [d] true) ≠ [] := by
+        intro e; rw [e] at hdesc; simp at hdesc
+      obtain ⟨R', st, hstep, hs⟩ := stamp_fold (m := m) R hR.1 _ hfn hne hfsub d hdR false
+      refine ⟨[.stamp _ [d] false false], [R'], ?_, runSteps_single m R R' _ st hstep, ?_⟩
+      · simp [stampDest, hdf, hdesc, hnoanc, pure, Except.pure]
+      · simpa using hrows R' hs
+    · by_cases hanc : (R.filter (fun x => sharesLineage m x [d] true)).any (· ∈ m.ancestors [d]) = true
+      · have hne : R.filter (fun x => sharesLineage m x [d] true) ≠ [] := by
+          intro e; rw [e] at hanc; simp at hanc
+        obtain ⟨R', st, hstep, hs⟩ := stamp_fold (m := m) R hR.1 _ hfn hne hfsub d hdR true
+        refine ⟨[.stamp _ [d] true false], [R'], ?_, runSteps_single m R R' _ st hstep, ?_⟩
+        · simp [stampDest, hdf, hdesc, hanc, pure, Except.pure]
+        · simpa using hrows R' hs
+      · -- no row in the lineage: a new branch
+        have hnil : R.filter (fun x => sharesLineage m x [d] true) = [] := by
+          apply List.eq_nil_iff_forall_not_mem.mpr
+          intro f hf
+          have hl := ((hfmem f).mp hf).2
+          rcases hl with h | h
+          · apply hanc
+            simp only [List.any_eq_true, decide_eq_true_eq]
+            exact ⟨f, hf, (mem_anc_single L d f).mpr h⟩
+          · apply hdesc
+            simp only [List.any_eq_true, decide_eq_true_eq]
+            exact ⟨f, hf, (mem_desc_single L d f).mpr h⟩
+        obtain ⟨R', hok, hs⟩ := ins_ok hR.1 hdR
+        have hst : stepStmts m R (.stamp [] [d] true true) = .ok [.ins d] := by
+          unfold stepStmts; simp [hdR]
+        have hstep : updateToStep m R (.stamp [] [d] true true) = .ok (R', [.ins d]) := by
+          unfold updateToStep; rw [hst]; simp only; rw [hok]
+        refine ⟨[.stamp [] [d] true true], [R'], ?_, runSteps_single m R R' _ _ hstep, ?_⟩
+        · rw [hnil]; simp [stampDest, pure, Except.pure]
+        · simp only [List.getLastD_cons, List.getLastD_nil]
+          refine ⟨hs.nodup, ?_⟩
+          intro x; rw [hs.iff x]
+          constructor
+          · rintro (h | h)
+            · left; refine ⟨h, fun hl => ?_⟩
+              have := (hfmem x).mpr ⟨h, hl⟩; rw [hnil] at this; simp at this
+            · exact Or.inr h
+          · rintro (⟨h, _⟩ | h)
+            · exact Or.inl h
+            · exact Or.inr h
+
+/-- **Stamping `base`** deletes every selected head (for plain `base` all rows are selected):
+each statement hits one row and the table ends without them. -/
+theorem base {m : LMap} (R : List Id) (hn : R.Nodup) :
+    ∃ steps tr, stampDest m R none = .ok steps ∧ runSteps m R steps = .ok tr ∧ tr.getLastD R = [] := by
+  -- generalised: deleting a duplicate-free sub-list `fs` of the rows one by one
+  have key : ∀ (fs R : List Id), R.Nodup → fs.Nodup → (∀ f ∈ fs, f ∈ R) →
+      ∃ tr, runSteps m R (fs.map (fun h => Step.stamp [h] [] false true)) = .ok tr ∧
+        RowSet (tr.getLastD R) (fun x => x ∈ R ∧ x ∉ fs) := by
+    intro fs
+    induction fs with
+    | nil => intro R hn _ _; exact ⟨[], by simp [runSteps], hn, by intro x; simp⟩
+    | cons f rest ih =>
+      intro R hn hf hs
+      have hf' := List.nodup_cons.mp hf
+      obtain ⟨R1, h1, s1⟩ := del_ok hn (hs f List.mem_cons_self)
+      have hst : stepStmts m R (.stamp [f] [] false true) = .ok [.del f] := by
+        unfold stepStmts; simp
+      have hstep : updateToStep m R (.stamp [f] [] false true) = .ok (R1, [.del f]) := by
+        unfold updateToStep; rw [hst]; simp only; rw [h1]
+      obtain ⟨tr, htr, hs2⟩ := ih R1 s1.nodup hf'.2 (fun g hg =>
+        (s1.iff g).mpr ⟨hs g (List.mem_cons_of_mem _ hg), fun e => hf'.1 (e ▸ hg)⟩)
+      refine ⟨R1 :: tr, by simp [runSteps, hstep, htr], ?_⟩
+      have hlast : (R1 :: tr).getLastD R = tr.getLastD R1 := by
+        cases tr <;> simp [List.getLastD]
+      rw [hlast]
+      refine ⟨hs2.nodup, ?_⟩
+      intro x; rw [hs2.iff x, s1.iff x]
+      simp only [List.mem_cons, not_or]
+      constructor
+      · rintro ⟨⟨h1, h2⟩, h3⟩; exact ⟨h1, h2, h3⟩
+      · rintro ⟨h1, h2, h3⟩; exact ⟨⟨h1, h2⟩, h3⟩
+  obtain ⟨tr, htr, hs⟩ := key R R hn hn (fun f hf => hf)
+  refine ⟨_, tr, by simp [stampDest, pure, Except.pure], htr, ?_⟩
+  apply List.eq_nil_iff_forall_not_mem.mpr
+  intro x hx
+  exact ((hs.iff x).mp hx).2 ((hs.iff x).mp hx).1
+
+/-! ### non-vacuity: the history of the repaired defect F4 (`a, b; c <- a`, rows `{a, b}`) -/
+
+def f4 : Hist := [⟨"a", [], [], []⟩, ⟨"b", [], [], []⟩, ⟨"c", ["a"], [], []⟩]
+
+def rowsAre (r : Except Err (List Id)) (l : List Id) : Bool := match r with | .ok x => x == l | .error _ => false
+
+example : rowsAre ((load f4).bind (fun m => stamp m ["heads"] ["a", "b"])) ["b", "c"] = true := by decide +kernel
+example : rowsAre ((load f4).bind (fun m => stamp m ["c"] ["a", "b"])) ["b", "c"] = true := by decide +kernel
+example : rowsAre ((load f4).bind (fun m => stamp m ["base"] ["c", "b"])) [] = true := by decide +kernel
+
 end C05
